@@ -99,6 +99,7 @@ type c10Providers struct {
 }
 
 func c10Run(c *fw.Ctx) {
+	c.Retries = 2 // socket-based harness: tolerate a transient glitch while replaying a prefix
 	vtime.SetManual(harness.T0)
 	defer vtime.SetReal()
 	envs := &authEnvCache{}
